@@ -681,3 +681,18 @@ def run(cx):
             ob.require(okk and not sw, f"parse-error-absorbed/{owner_path(prog, bd)}",
                        f"{bd.path}: the result of try_parse_timeout is used by {[u.fn.split('::')[-1] for u in users] or 'a match / `?`'} - an unparsable header must count as absent, not fail the request", bd.path, bd.loc(c.bb))
 
+    with cx.ob("C11.6", "R-SHAPE", "one layer out: cloning a Timeout service keeps its default (field-by-field Clone) and poll_ready is the inner service's readiness only") as ob:
+        for ty in ("anemo::middleware::timeout::inbound::Timeout", "anemo::middleware::timeout::outbound::Timeout"):
+            check_fieldwise_clone(ob, prog, ty)
+            check_poll_ready_delegates(ob, prog, ty)
+        check_fieldwise_clone(ob, prog, "anemo::network::peer::Peer")          # a cloned Peer keeps the outbound layer (with the timeout) and the config
+
+    with cx.ob("C11.7", "R-WRITERS", "one layer out: the configured request timeouts are never rewritten after the Config was built; the handler runs as part of the request future (no spawn on the request path, C08.7 re-evaluated), so dropping that future at the deadline drops the handler") as ob:
+        check_config_immutable(ob, prog, ["inbound_request_timeout_ms", "outbound_request_timeout_ms"])
+        from . import c08
+        sub = cx.__class__("C11", prog, cx.tier, cx.config, cx.tree, repo=cx.repo)
+        c08.run(sub)
+        w = [x for x in sub.obs if x.oid == "C08.7"]
+        ob.count(sum(x.evals for x in w))
+        bad = [v for x in w for v in x.violations]
+        ob.require(len(w) == 1 and not bad, "handler-dropped-at-deadline/no-spawn-on-request-path", "the handler can be detached from the request future (a timeout then answers but no longer stops it): " + "; ".join(str(v.msg) for v in bad)[:300], "anemo::rpc::server::Rpc::unary")
